@@ -285,7 +285,6 @@ fn nested_match_is_parenthesised() {
 fn rejections() {
     rejected("nope", "function `HL::nope` not found");
     rejected("room", "no field `is_full_field`");
-    rejected("with_mut", "`let` pattern");
     rejected("with_loop", "outside the supported subset");
     rejected("with_wild", "match pattern");
     rejected("missing_arm", "without an arm for `Prio::Medium`");
@@ -1164,7 +1163,6 @@ fn for_loop_over_a_range_and_mutable_parameter() {
 fn loop_and_state_rejections() {
     en_rejected("loop_from_one", "loop range (only `0..n`)");
     en_rejected("loop_inclusive", "loop (only `for x in 0..n`)");
-    en_rejected("loop_over_vec", "loop (only `for x in 0..n`)");
     en_rejected("loop_with_return", "`return` here");
     en_rejected("loop_with_break", "outside the supported subset");
     en_rejected("loop_with_question", "early exit to `None` inside a loop body");
@@ -1354,4 +1352,187 @@ fn handler_config_rejections() {
     hc_rejected("into_of_local", "outside the supported subset: method call used as a value");
     hc_rejected("generic_other", "generic function");
     hc_rejected("match_named_fields", "named fields");
+}
+
+// ------------------------------------------------------------------------------------------------ access-shaped code
+
+const AC: &str = r#"
+pub enum Access { None, Read, ReadWrite }
+pub struct CAcc { cases: Vec<Case> }
+type Case = Vec<(Idx, Lit)>;
+enum Lit { With, Not, Conflict }
+impl Access {
+    pub const fn join(self, other: Self) -> Option<Access> {
+        match (self, other) {
+            (Access::None, Access::None) => Some(Access::None),
+            (Access::Read | Access::ReadWrite, Access::None) => Some(self),
+            (Access::None, Access::Read | Access::ReadWrite) => Some(other),
+            (Access::Read, Access::Read) => Some(Access::Read),
+            (Access::Read | Access::ReadWrite, Access::ReadWrite) | (Access::ReadWrite, Access::Read) => None,
+        }
+    }
+    pub const fn is_compatible(self, other: Self) -> bool { self.join(other).is_some() }
+    fn partial(self, other: Self) -> bool { match (self, other) { (Access::None, Access::None) => true, (Access::Read, Access::None | Access::Read) => false } }
+    fn twice(self, other: Self) -> bool { match (self, other) { (Access::None | Access::Read | Access::ReadWrite, Access::None | Access::Read | Access::ReadWrite) => true, (Access::None, Access::None) => false } }
+    fn wild(self, other: Self) -> bool { match (self, other) { (Access::None, _) => true, (Access::Read | Access::ReadWrite, Access::None | Access::Read | Access::ReadWrite) => false } }
+}
+impl CAcc {
+    pub fn new_true() -> Self { Self { cases: vec![vec![]] } }
+    pub fn var(idx: Idx, access: Access) -> Self {
+        Self { cases: vec![vec![(idx, match access { Access::None => Lit::With, Access::Read => Lit::With, Access::ReadWrite => Lit::Conflict })]] }
+    }
+    pub fn or(&self, rhs: &Self) -> Self {
+        Self { cases: self.cases.iter().chain(rhs.cases.iter()).cloned().collect() }
+    }
+    pub(crate) fn matches<F>(&self, mut f: F) -> bool where F: FnMut(Idx) -> bool {
+        self.cases.iter().any(|case| {
+            case.iter().all(|&(idx, access)| match access { Lit::With => f(idx), Lit::Not => !f(idx), Lit::Conflict => f(idx) })
+        })
+    }
+    pub fn clear(&mut self) {
+        for case in &mut self.cases {
+            for (_, access) in case {
+                *access = match *access { Lit::With => Lit::With, Lit::Not => Lit::Not, Lit::Conflict => Lit::With }
+            }
+        }
+    }
+    pub(crate) fn conflicts(&self) -> IndexSet<Idx> {
+        let mut res = IndexSet::new();
+        for case in &self.cases {
+            for &(idx, access) in case {
+                if access == Lit::Conflict { res.insert(idx); }
+            }
+        }
+        res
+    }
+    fn count(&self) -> u32 {
+        let mut n = 0u32;
+        for case in &self.cases { n += 1; }
+        n
+    }
+    fn map_changes_self(&mut self, other: &mut CAcc) { for case in &mut self.cases { other.cases.push(vec![]); } }
+    fn vec_repeat(&self) -> Vec<u32> { vec![0; 3] }
+    fn fold_with_break(&self) -> u32 { let mut n = 0u32; for case in &self.cases { if n == 3 { break; } n += 1; } n }
+    fn unknown_adaptor(&self) -> usize { self.cases.iter().rev().count() }
+}
+"#;
+
+fn ac_opts(fns: &[&str]) -> Options {
+    let p = |a: &str, b: &str| (a.to_string(), b.to_string());
+    Options {
+        impl_type: "CAcc".into(),
+        fns: fns.iter().map(|s| s.to_string()).collect(),
+        type_map: vec![p("CAcc", "CA"), p("Access", "Access"), p("Lit", "Lit"), p("Idx", "Nat"), p("IndexSet", "List Nat")],
+        transparent: vec!["CAcc".into()],
+        prims: vec![p("IndexSet::new() -> IndexSet", "([] : List Nat)"), p("IndexSet::insert(&mut self, _) -> bool", "indexSetInsert")],
+        source_label: "ac.rs".into(),
+        ..Default::default()
+    }
+}
+
+fn ac_ok(f: &str) -> String {
+    let out = translate(AC, &ac_opts(&[f])).unwrap_or_else(|e| panic!("{f}: {e}"));
+    body_of(&out, &f.replace("::", "."))
+}
+
+fn ac_rejected(f: &str, needle: &str) {
+    match translate(AC, &ac_opts(&[f])) {
+        Ok(o) => panic!("{f} was translated:\n{o}"),
+        Err(e) => assert!(e.0.contains(needle), "{f}: message `{}` does not mention `{needle}`", e.0),
+    }
+}
+
+#[test]
+fn match_on_a_tuple_of_enums_multiplies_alternatives_out() {
+    assert_eq!(
+        ac_ok("Access::join"),
+        "def Access.join (self : Access) (other : Access) : Option Access :=
+  match self, other with
+  | .«none», .«none» =>
+    some .«none»
+  | .read, .«none» | .readWrite, .«none» =>
+    some self
+  | .«none», .read | .«none», .readWrite =>
+    some other
+  | .read, .read =>
+    some .read
+  | .read, .readWrite | .readWrite, .readWrite | .readWrite, .read =>
+    none"
+    );
+    let out = translate(AC, &ac_opts(&["Access::join", "Access::is_compatible"])).unwrap();
+    assert_eq!(body_of(&out, "Access.is_compatible"), "def Access.is_compatible (self : Access) (other : Access) : Bool :=\n  Option.isSome (Access.join self other)");
+    ac_rejected("Access::partial", "covers 3 of 9 combinations");
+    ac_rejected("Access::twice", "is matched twice");
+    ac_rejected("Access::wild", "no `_`");
+}
+
+#[test]
+fn transparent_struct_vec_macro_match_operand_and_iterator_chain() {
+    assert_eq!(ac_ok("new_true"), "def new_true : CA :=\n  [[]]");
+    assert_eq!(
+        ac_ok("var"),
+        "def var (idx : Nat) (access : Access) : CA :=\n  [[(idx, (match access with | .«none» => .«with» | .read => .«with» | .readWrite => .conflict))]]"
+    );
+    assert_eq!(ac_ok("or"), "def or (self : CA) (rhs : CA) : CA :=\n  self ++ rhs");
+    assert_eq!(
+        ac_ok("matches"),
+        "def matches (self : CA) (f : Nat → Bool) : Bool :=\n  List.any self (fun case => List.all case (fun (idx, access) => (match access with | .«with» => f idx | .not => !(f idx) | .conflict => f idx)))"
+    );
+    let out = translate(AC, &ac_opts(&["or"])).unwrap();
+    assert!(out.contains("the struct `CAcc` is its only field `cases`"), "{out}");
+}
+
+#[test]
+fn for_over_mutable_elements_is_a_map_and_over_shared_elements_a_fold() {
+    assert_eq!(
+        ac_ok("clear"),
+        "def clear (self : CA) : CA :=
+  let m2 :=
+    List.map (fun case =>
+        let m1 :=
+          List.map (fun (x1, access) =>
+              let v1 :=
+                match access with
+                | .«with» =>
+                  .«with»
+                | .not =>
+                  .not
+                | .conflict =>
+                  .«with»
+              let access := v1
+              (x1, access)) case
+        m1) self
+  m2"
+    );
+    assert_eq!(
+        ac_ok("conflicts"),
+        "def conflicts (self : CA) : List Nat :=
+  let res := ([] : List Nat)
+  let res :=
+    forEach self res (fun case res =>
+        forEach case res (fun (idx, access) res =>
+            if access = .conflict then
+              let (r1, q1) := indexSetInsert res idx
+              let res := r1
+              res
+            else res))
+  res"
+    );
+    assert_eq!(
+        ac_ok("count"),
+        "def count (self : CA) : Nat :=
+  let n := 0
+  let n :=
+    forEach self n (fun case n =>
+        n + 1)
+  n"
+    );
+}
+
+#[test]
+fn access_rejections() {
+    ac_rejected("map_changes_self", "method call as a statement");
+    ac_rejected("vec_repeat", "`vec!` (only `vec![a, b, …]`)");
+    ac_rejected("fold_with_break", "outside the supported subset");
+    ac_rejected("unknown_adaptor", "method call used as a value");
 }
